@@ -11,10 +11,10 @@ from props.base import PropBase
 def call(g, a, b, C):
     import networkx as nx
     from y0.algorithm.conditional_independencies import are_d_separated
-    gr = GG.to_y0(g)
+    gr = GG.to_y0(g, loose=True)
     before = GG.snapshot(gr)
     try:
-        j = are_d_separated(gr, GG.V(a), GG.V(b), conditions=[GG.V(c) for c in C])
+        j = are_d_separated(gr, GG.V(a), GG.V(b), conditions=GG.present([GG.V(c) for c in C], (a, b)))
         out = 1 if j.separated else 0
         canonical = bool(j.is_canonical) and set(j.conditions) == {GG.V(c) for c in C} and {j.left, j.right} == {GG.V(a), GG.V(b)}
     except KeyError:
